@@ -57,7 +57,10 @@ def make_motl(positions, groups, scores, field, rng, ids=None, sid_mode=0):
 
 def run_clean(motl, cols, metric, scores, d, field, keep_greater):
     motl.df[metric] = np.asarray(scores, dtype=float)
-    motl.clean_by_distance(d, field, metric_id=metric, keep_greater=keep_greater)
+    # the flag in one of its truth-value spellings (a computed numpy.bool_, 0 / 1): picked from the data, deterministically
+    k = int(abs(float(np.sum(motl.df["x"].to_numpy(dtype=float)))) * 8) % 4
+    flag = [bool(keep_greater), np.bool_(keep_greater), int(bool(keep_greater)), np.array([keep_greater])[0]][k]
+    motl.clean_by_distance(d, field, metric_id=metric, keep_greater=flag)
     return motl.df[TAG].to_numpy(dtype=float).tolist()
 
 
@@ -258,6 +261,10 @@ def exec_peaks_case(ctx, case):
         scores = scores - threshold + target
         threshold = target
     diameter = math.sqrt(case["k"] + 0.5)        # never the distance of two voxels (those are sqrt of integers)
+    if case["id"] % 5 == 0:
+        # a whole number of voxels (int or float): the tie is exact - two voxels at exactly the diameter are NOT
+        # "farther apart than the diameter", the weaker one must go (distances 1, 2, 3 are computed exactly)
+        diameter = [1, 1.0, 2, 3.0, 1][(case["id"] // 5) % 5]
     m = case.get("nangles", 23)          # fine angular sampling: lists of tens of thousands of orientations
     alist = np.round(np.column_stack([rs.uniform(-180, 180, m), rs.uniform(0, 180, m), rs.uniform(-180, 180, m)]), 3)
     amap = rs.randint(0, m, size=shape).astype(float) + case["numbering"]
